@@ -25,6 +25,9 @@ UNITS = [v(0), v(1), v(4), v(6, tiers=('thorough',)),
                                         Fn(P + 'ident.rs', 'try_from', r'impl TryFrom<Text> for Identifier')],
               kind='bounded', bound='all ASCII strings of length 3',
               contract='Text::from_str / Identifier::from_str / Identifier::try_from(Text): Ok(v) => v.as_str() is the input and satisfies the validator specification; Err exactly otherwise', **K),
+         Kani(M + 'c32_static_text_to_identifier', fns=[Fn(P + 'ident.rs', 'try_from', r'impl TryFrom<Text> for Identifier')], kind='bounded',
+              bound='7 literal strings held in the Static representation',
+              contract='a Text in the Static representation converts to an Identifier exactly when its content is an identifier (same answer as for inline storage); Text::new() never does', **K),
          r(0), r(22), r(23),
          Kani(M + 'c32_repr_eq_ord_by_content', fns=[Fn(P + 'repr.rs', 'eq', r'impl PartialEq for Repr'), Fn(P + 'repr.rs', 'cmp', r'impl Ord for Repr')],
               kind='bounded', bound='one 26-byte string as Static vs Heap; all pairs of 3-byte ASCII strings as Inline',
